@@ -198,6 +198,19 @@ instance (created : List (String × Bool)) (registered : List String) : Decidabl
 def registeredB (created : List (String × Bool)) (registered : List String) : Bool :=
   decide (RegisteredOK created registered)
 
+/-- the part of `RegisteredOK` the STATEMENT needs ("lists exactly the exported modules"): no module object with a set
+`export` flag is missing from the list the report is made from (the monitor for the implementation; a surplus entry
+or another order would not make the report untrue by itself) -/
+def unregistered (created : List (String × Bool)) (registered : List String) : List String :=
+  ((created.filter (·.2)).map (·.1)).filter (fun m => !registered.contains m)
+
+def allRegisteredB (created : List (String × Bool)) (registered : List String) : Bool :=
+  (unregistered created registered).isEmpty
+
+/-- the registered modules whose object has the flag set (the ones `get_descriptive_data` does not skip) -/
+def registeredExported (created : List (String × Bool)) (registered : List String) : List String :=
+  registered.filter (fun m => created.contains (m, true))
+
 /-- the report has one entry per registered module, in that order -/
 def reportFollowsB (registered : List String) (d : List (ModDesc J)) : Bool := decide (d.map (·.name) = registered)
 
